@@ -237,6 +237,9 @@ def run(tier):
     # cross-subsystem walks judged against the umbrella specification (Session.tla); this property's clauses only
     import sessionwalk
     sw = sessionwalk.stage(PID, wd, tier, verdict)
+    # which language's files are in use, as a function of the current Language / LanguageAuto / SpeechStyle (LangSelect.tla)
+    import langselect
+    sw.update(langselect.stage(wd, tier, verdict))
     rc = verdict.finish(wd)
     keys = {k for k, _, _, _ in obs}
     repeated = len([1 for i in range(1, len(obs)) if obs[i][0] == obs[i - 1][0]])
@@ -267,6 +270,8 @@ def selftest(tier):
     rej, _, _ = C.validate_trace("Trace_Memo", "Trace_Memo.cfg", ev, wd)
     if [i for i, _ in rej] != [4]:
         raise C.ToolError(f"selftest: {rej}")
+    import langselect
+    langselect.selftest(wd)
     C.log("[C10] selftest ok")
     return 0
 
